@@ -17,6 +17,15 @@ pub(crate) fn eat_whitespace_and_commas(input: &[u8], inposp: &mut usize) {
     }
 }
 
+/// The input byte at `pos`, or an error if the input ends before it
+#[inline]
+pub(crate) fn peek(input: &[u8], pos: usize) -> Result<u8, Error> {
+    match input.get(pos) {
+        Some(b) => Ok(*b),
+        None => Err(InnerError::JsonBad("Too short", pos).into()),
+    }
+}
+
 /// Verify the next input character is as specified and move inposp past it
 #[inline]
 pub fn verify_char(input: &[u8], ch: u8, inposp: &mut usize) -> Result<(), Error> {
@@ -193,11 +202,11 @@ pub(crate) fn read_tags_array(
         eat_whitespace(input, inposp);
 
         // Check what is next
-        match input[*inposp] {
+        match peek(input, *inposp)? {
             b']' => {
                 *inposp += 1;
                 if tag_num != num_tags - 1 {
-                    panic!("Tag count mismatch");
+                    return Err(InnerError::JsonBad("Tag count mismatch", *inposp).into());
                 }
                 break;
             }
@@ -207,7 +216,7 @@ pub(crate) fn read_tags_array(
                 verify_char(input, b'[', inposp)?;
                 tag_num += 1;
                 if tag_num >= num_tags {
-                    panic!("Tag count mismatch");
+                    return Err(InnerError::JsonBad("Tag count mismatch", *inposp).into());
                 }
                 eat_whitespace(input, inposp);
             }
@@ -226,7 +235,7 @@ pub(crate) fn read_tags_array(
 // This does a quicker pass over the content than actual tag parsing does.
 pub(crate) fn count_tags(input: &[u8], mut inpos: usize) -> Result<usize, Error> {
     // First non-whitespace character after the opening brace
-    match input[inpos] {
+    match peek(input, inpos)? {
         b']' => return Ok(0), // no tags
         b'[' => (),           // expected
         _ => return Err(InnerError::JsonBad("Tag array bad initial character", inpos).into()),
@@ -238,7 +247,7 @@ pub(crate) fn count_tags(input: &[u8], mut inpos: usize) -> Result<usize, Error>
     eat_whitespace(input, &mut inpos);
 
     loop {
-        match input[inpos] {
+        match peek(input, inpos)? {
             b']' => return Ok(count),
             b',' => {
                 inpos += 1;
@@ -263,7 +272,7 @@ pub(crate) fn read_tag(
     *outposp += 2;
 
     // handle empty tag
-    if input[*inposp] == b']' {
+    if peek(input, *inposp)? == b']' {
         *inposp += 1;
         put(output, countpos, 0_u16.to_ne_bytes().as_slice())?;
 
@@ -287,7 +296,7 @@ pub(crate) fn read_tag(
         *inposp += inlen + 1;
 
         eat_whitespace(input, inposp);
-        match input[*inposp] {
+        match peek(input, *inposp)? {
             b',' => {
                 *inposp += 1;
                 eat_whitespace(input, inposp);
@@ -364,7 +373,7 @@ pub(crate) fn burn_string(input: &[u8], inposp: &mut usize) -> Result<(), Error>
             *inposp += 1;
         }
     }
-    if input[*inposp] == b'"' {
+    if *inposp < input.len() && input[*inposp] == b'"' {
         *inposp += 1;
         Ok(())
     } else {
@@ -377,14 +386,14 @@ pub(crate) fn burn_string(input: &[u8], inposp: &mut usize) -> Result<(), Error>
 pub(crate) fn burn_tag(input: &[u8], inposp: &mut usize) -> Result<(), Error> {
     eat_whitespace(input, inposp);
     // handle empty tag
-    if input[*inposp] == b']' {
+    if peek(input, *inposp)? == b']' {
         *inposp += 1;
         return Ok(());
     }
     verify_char(input, b'"', inposp)?;
     burn_string(input, inposp)?;
     eat_whitespace(input, inposp);
-    while input[*inposp] == b',' {
+    while peek(input, *inposp)? == b',' {
         *inposp += 1;
         eat_whitespace(input, inposp);
         verify_char(input, b'"', inposp)?;
@@ -411,7 +420,7 @@ pub(crate) fn burn_object(input: &[u8], inposp: &mut usize) -> Result<(), Error>
         eat_whitespace_and_commas(input, inposp);
 
         // Check for the end
-        if input[*inposp] == b'}' {
+        if peek(input, *inposp)? == b'}' {
             *inposp += 1;
             return Ok(());
         }
@@ -428,7 +437,7 @@ pub(crate) fn burn_array(input: &[u8], inposp: &mut usize) -> Result<(), Error> 
         eat_whitespace_and_commas(input, inposp);
 
         // Check for the end
-        if input[*inposp] == b']' {
+        if peek(input, *inposp)? == b']' {
             *inposp += 1;
             return Ok(());
         }
